@@ -17,12 +17,12 @@ import (
 	"strconv"
 	"sync"
 
+	td "github.com/go-text/typesetting-utils/opentype"
 	"github.com/go-text/typesetting/di"
 	"github.com/go-text/typesetting/font"
 	"github.com/go-text/typesetting/fontscan"
 	"github.com/go-text/typesetting/language"
 	"github.com/go-text/typesetting/shaping"
-	td "github.com/go-text/typesetting-utils/opentype"
 	"golang.org/x/image/math/fixed"
 )
 
